@@ -10,9 +10,9 @@ import (
 	"github.com/paulsonkoly/chess-3/board"
 	"github.com/paulsonkoly/chess-3/chess"
 	"github.com/paulsonkoly/chess-3/eval"
-	"github.com/paulsonkoly/chess-3/move"
 	"github.com/paulsonkoly/chess-3/uci"
 
+	"verif/harness/conv"
 	"verif/harness/eng"
 	"verif/harness/ev"
 	"verif/harness/gen"
@@ -222,7 +222,7 @@ func TestCheck(t *testing.T) {
 		steps := gen.Playout(rng, start, 30+rng.IntN(120), gen.BiasRich, 100)
 		b := eng.MustBoard(&start)
 		for _, st := range steps {
-			b.MakeMove(move.Move(st.Move))
+			b.MakeMove(conv.M(st.Move))
 			if st.Pos.Half > 100 {
 				break
 			}
